@@ -273,6 +273,8 @@ def family_c06(tier, seed):
                     pipe = build("sel", seq, alpha)
                     if pipe is not None:
                         bases.append(("T|sel:" + ">".join(seq), Prog(pipe)))
+    from families import targeted_outer_join_family
+    bases += [("T|" + tg, pr) for tg, pr in targeted_outer_join_family() if tg.endswith((":agg", ":group", ":filter"))]
     if tier == "thorough":
         names = ["derive_lit", "filter_and", "filter_halfopen", "derive_halfopen", "sort_asc", "take_n", "group_agg", "join_inner", "win_sum", "select_2", "agg", "group_take", "distinct", "derive_mix", "take_range"]
         bases += [b for b in enumerate_family(3, heads=("sel",), alphabet=alpha, only_names=names) if b[0].count(">") == 2]
